@@ -102,10 +102,14 @@ func vhBuild(h *vrt.H, k Keeper, ctx sdk.Context, n, t int, weights []uint64) *v
 				vhMust(k.Locking.Set(ctx, collections.Join(st.Tokens[j].Denom, vhAddr(i)), amt))
 			}
 		}
+		// Inv_L: a member's signing window is in range (the vote handler keeps it there and a
+		// promotion starts a fresh one); the record of a non-member is whatever it was left at
+		si := types.SigningInfo{Offset: int64(h.U64(h.Name("offset", i)) >> 1), Missed: int64(h.U64(h.Name("missed", i)) >> 1)}
+		h.Assume(h.Implies(v.Status == types.Active, h.Both(si.Offset < params.SignedBlocksWindow, si.Missed < params.MaxMissedPerWindow)))
 		vhMust(k.Validators.Set(ctx, vhAddr(i), types.Validator{
 			Pubkey: vhPubkey(i), Power: v.Power, Locking: coins, Status: v.Status,
 			Reward: math.ZeroInt(), GasReward: math.ZeroInt(),
-			SigningInfo: types.SigningInfo{Offset: int64(h.U64(h.Name("offset", i)) >> 1), Missed: int64(h.U64(h.Name("missed", i)) >> 1)},
+			SigningInfo: si,
 		}))
 		if h.Both(cand, v.Power > 0) { // ranking = candidates with positive power
 			vhMust(k.PowerRanking.Set(ctx, collections.Join(v.Power, vhAddr(i))))
